@@ -750,6 +750,22 @@ def _vec_push(m, a, c):
     return ()
 
 
+@reg("std::vec::Vec::<T, A>::dedup")
+def _vec_dedup(m, a, c):
+    v = deref(a[0])
+    out = []
+    for x in v.items:
+        if out:
+            e = _eq(m, [out[-1], x], {})
+            if isinstance(e, Term):
+                raise Unsupported("dedup of symbolic values")
+            if e:
+                continue
+        out.append(x)
+    v.items[:] = out
+    return ()
+
+
 @reg("std::collections::BinaryHeap::<T>::new", "std::collections::BinaryHeap::<T, A>::new")
 def _heap_new(m, a, c):
     return PyVec([])
